@@ -180,7 +180,7 @@ theorem C10_lex_ws (s : LexState) : lexStep s ws = .ok s := lexStep_ws s
 
 /-- hence whitespace tokens may be inserted anywhere: only the non-whitespace tokens count -/
 theorem C10_lex_ws_anywhere (s : LexState) (toks tag : List Tok)
-    (h : toks.filter (fun t => !isWs t) = tag) : lexAll s toks = lexAll s tag := by
+    (h : toks.filter (fun t => !isWsTok t) = tag) : lexAll s toks = lexAll s tag := by
   rw [← h]; exact lexAll_filter_ws s toks
 
 /-- literal text between tags -/
@@ -343,7 +343,7 @@ inductive TagSpelling : List Tok → MFlat → Prop where
       TagSpelling ([sym o, sym sBang] ++ junk ++ [sym c]) ⟨.comment, []⟩
   /-- whitespace tokens and token positions do not matter -/
   | padded (toks toks' : List Tok) (t : MFlat) (h : TagSpelling toks t)
-      (hw : toks'.filter (fun t => !isWs t) = toks.filter (fun t => !isWs t)) : TagSpelling toks' t
+      (hw : toks'.filter (fun t => !isWsTok t) = toks.filter (fun t => !isWsTok t)) : TagSpelling toks' t
 
 /-- the spellings of a sequence of flat tokens -/
 inductive Spelling : List Tok → List MFlat → Prop where
